@@ -298,6 +298,14 @@ func (d *Dom) extreme(v []Node, signed, max bool) *big.Int {
 	return res
 }
 
+// RangeOf: bounds of x; read off its linear form when it has one (without materialising its bits).
+func (d *Dom) RangeOf(x *Bits) (*big.Int, *big.Int) {
+	if l := d.selfLinLazy(x); l != nil {
+		return d.linRange(l)
+	}
+	return d.Range(x.Bits(), x.Signed)
+}
+
 func (d *Dom) linRange(l *Lin) (*big.Int, *big.Int) {
 	lo, hi := big.NewInt(l.K), big.NewInt(l.K)
 	for _, t := range l.Terms {
